@@ -34,7 +34,9 @@ type CacheScen struct {
 }
 
 var cacheKeys = [][2]string{{"n1", "a"}, {"", "a"}, {"n1", "b"}, {"n2", "a"}, {"n-1", "a"}, {"n", "1-a"}} // "" = a cluster-scoped object (nodes have no namespace); the last two collide under a "-" join
-var weirdVersions = []string{"", "0", "-1", "+3", "007", "abc", "9999999999999999999", "1.5", " 4"}
+var weirdVersions = []string{"", "0", "-1", "+3", "007", "abc", "9999999999999999999", "1.5", " 4",
+	// zero-padded and other-base spellings: decimal is decimal on every path
+	"017", "016", "018", "0017", "0x11", "0b11", "0o17", "1_0", "1e1"}
 
 func genSpec(rng *rand.Rand, nkeys int) world.Spec {
 	k := cacheKeys[rng.Intn(nkeys)]
